@@ -151,6 +151,12 @@ def work(item):
             g.notSaved = not_saved
             if saved is not None:
                 g._savedLayout = saved
+            else:
+                # nothing is held: the remembered name is either the constructor's initial state or the stale name of a save
+                # that was restored or freed (every real history leaves one of the two)
+                stale = choose(ctx, 'staleSaved', len(names) + 1)
+                if stale < len(names):
+                    g._savedLayout = names[stale]
         # ---- contents according to the representation invariant
         g._my_data[g._dataIdx].buf.reset(LS.field_init(h.getLayout(cur), F, lambda pos: junk(symx.ival(20), symx.ival(0), pos)))
         if saved is not None:
@@ -239,6 +245,10 @@ def work(item):
         pre['cur'] = names[mv('cur')] if 0 <= mv('cur') < len(names) else names[0]
         pre['not_saved'] = mv('notSaved', True) if m['has_save'] else True
         pre['saved'] = names[mv('savedLayout')] if (m['has_save'] and not pre['not_saved']) else None
+        pre['stale'] = None
+        if m['has_save'] and pre['not_saved']:
+            sv = mv('staleSaved')
+            pre['stale'] = names[sv] if 0 <= sv < len(names) else None
         st['pre'] = pre
         argname = val[1] if (kind == 'ok' and val) else (names[mv('newLayout')] if op == 'setLayout' else None)
         res['obligations'] += 1
@@ -341,7 +351,8 @@ def concrete_history_search(lkey, shape, pre, op, arg, canary, maxlen=7):
                 for k, (o, a) in enumerate(seq):
                     if k == at:
                         state = dict(perm=[g._dataIdx, g._buffIdx, g._saveIdx], cur=g.currentLayout,
-                                     not_saved=getattr(g, 'notSaved', True), saved=getattr(g, '_savedLayout', None) if not getattr(g, 'notSaved', True) else None)
+                                     not_saved=getattr(g, 'notSaved', True), saved=getattr(g, '_savedLayout', None) if not getattr(g, 'notSaved', True) else None,
+                                     stale=getattr(g, '_savedLayout', None) if getattr(g, 'notSaved', True) else None)
                     try:
                         if o == 'setLayout':
                             g.setLayout(a)
@@ -400,13 +411,13 @@ def concrete_history_search(lkey, shape, pre, op, arg, canary, maxlen=7):
     ops = [('setLayout', n) for n in names]
     if pre['has_save']:
         ops += [('save', None), ('restore', None), ('free', None)]
-    target = (tuple(pre['perm']), pre['cur'], bool(pre['not_saved']), pre['saved'])
+    target = (tuple(pre['perm']), pre['cur'], bool(pre['not_saved']), pre['saved'], pre.get('stale') if pre['has_save'] else None)
 
     def key(state):
         perm = list(state['perm'])
         if not pre['has_save']:
             perm = perm[:2] + [2]
-        return (tuple(perm), state['cur'], bool(state['not_saved']), state['saved'])
+        return (tuple(perm), state['cur'], bool(state['not_saved']), state['saved'], state.get('stale') if pre['has_save'] else None)
 
     # breadth-first search over *discrete states* reached by concrete runs of the real code
     seen = set()
